@@ -69,8 +69,9 @@ THEOREMS = [
     "BeyondVerif.C13.stamp_instant_roundtrip",
     "BeyondVerif.C13.oem_dump_any_form",
     "BeyondVerif.C13.center_name_roundtrip",
-    "BeyondVerif.C13.center_name_roundtrip_xml_partial",
-    "BeyondVerif.C13.center_name_roundtrip_xml_of_same_pats",
+    "BeyondVerif.C13.center_name_roundtrip_xml",
+    "BeyondVerif.C13.center_pats_agree",
+    "BeyondVerif.C13.centre_names_have_no_blank",
     "BeyondVerif.C13.man_ignition_tables",
     "BeyondVerif.C13.thrust_window_roundtrip",
     "BeyondVerif.C13.date_attr_shifts_window",
@@ -80,7 +81,9 @@ THEOREMS = [
     "BeyondVerif.C13W.mixed_scale_moves_instant",
     "BeyondVerif.C13W.oem_xml_noncartesian_form_ok",
     "BeyondVerif.C13W.opm_keplerian_maneuver_lost",
+    "BeyondVerif.C13W.xml_lagrange_centre_ok",
     "BeyondVerif.C13W.xml_lagrange_centre_glued",
+    "BeyondVerif.C13W.lagrange_multiword_body_ok",
     "BeyondVerif.C13W.lagrange_multiword_body_name_lost",
     "BeyondVerif.C13W.solar_system_barycenter_ok",
     "BeyondVerif.C13W.man_stop_dated_ok",
@@ -112,15 +115,15 @@ LEVEL_TEXT = ("Lean theorems over a structural model of beyond/io/ccsds (element
               "message comes back identical and a date labelled otherwise comes back as the same instant (stamp_roundtrip_same_scale, stamp_instant_roundtrip, "
               "stamp_instant_iff); both OEM writers accept points in any form (oem_dump_any_form); CENTER_NAME of every centre the library can create (analytical bodies, JPL bodies of one to three words, Lagrange points) "
               "comes back as the frame name through the KVN writers' CamelCase split and the readers' title().replace (center_name_roundtrip, by `decide` over the names regenerated from the live objects; "
-              "center_name_roundtrip_xml_partial without the Lagrange points); the thrust window [start, stop) of a continuous maneuver dated by start / median / stop comes back "
+              "center_name_roundtrip_xml: both writers test the same regenerated patterns; centre_names_have_no_blank); the thrust window [start, stop) of a continuous maneuver dated by start / median / stop comes back "
               "(thrust_window_roundtrip). Tables regenerated from the source on every run and checked by `decide`: covariance key matrix, OEM row keys, the ten "
               "frames, covariance and maneuver frame aliases, written units, which groups each reader wraps, the date attribute printed as MAN_EPOCH_IGNITION, the "
               "readers' date_pos, whether the writers convert time scales / forms / Keplerian maneuvers. Exact differential correspondence (message tokens at "
               "written precision, error kinds, clock readings) of the compiled model with the real dumps/loads for all four types x both encodings x re-dump.")
 LEVEL_NOTE = ("whole-message theorems hold for well-formed objects: non-empty texts, one of the ten Earth-centred frames, covariance / maneuver frames own, QSW or TNW, "
-              "distinct epochs inside an ephemeris, at most nine participants per path, one time scale per message in the structural model (other labels: Model/CcsdsExt.lean); four clauses are false of the current code and "
-              "kept as `_partial` theorems / kernel-checked counter-witnesses (open findings: multi-path TDM reloads as a list dumps refuses; "
-              "Keplerian maneuvers not written; XML writer prints the centre of a Lagrange-point frame glued; Lagrange point of a body with a two-word name); float formatting/parsing, Date arithmetic, lxml and the splitting of KVN text into tokens are parameters of the "
+              "distinct epochs inside an ephemeris, at most nine participants per path, one time scale per message in the structural model (other labels: Model/CcsdsExt.lean); two clauses are false of the current code and "
+              "kept as a `_partial` theorem / kernel-checked counter-witness (open findings: multi-path TDM reloads as a list dumps refuses; "
+              "Keplerian maneuvers not written); float formatting/parsing, Date arithmetic, lxml and the splitting of KVN text into tokens are parameters of the "
               "model (exercised by the correspondence and the oracle); Lean kernel + propext/Classical.choice/Quot.sound")
 TECHNIQUE = ("Lean 4 proof by induction over line / sibling / segment lists + kernel `decide` on tables regenerated from the Python AST and on concrete messages; "
              "exact model/implementation correspondence through the line-protocol driver")
@@ -155,7 +158,7 @@ NOT_COVERED = [
     "reader-only notations (default units, RTN, day-of-year dates, dates without fraction, comment lines, acceleration columns, theory SGP4, missing EPHEMERIS_TYPE / CLASSIFICATION_TYPE, centre in lower case) are checked by the oracle "
     "(`variants`: same object decoded, re-dump possible) but not modelled; what RANGE_UNITS = s means is outside the statement: the writers never produce it, so no round trip of an object beyond wrote is involved, and the Range read from such a foreign TDM "
     "does round-trip through dumps/loads as it was read (lead for the maintainers, not a C13 finding: tdm.py multiplies seconds by km * c with c in m/s, 1000 times too large)",
-    "clauses false of the current code (open findings, proposed fixes not applied): C13-tdm-multi-path-reloads-as-list; C13-opm-keplerian-maneuver; C13-xml-lagrange-centre-name-glued; C13-lagrange-centre-of-multiword-body",
+    "clauses false of the current code (open findings, proposed fixes not applied): C13-tdm-multi-path-reloads-as-list; C13-opm-keplerian-maneuver",
 ]
 OPEN = [
     "generalise CovWf / OpmWf to frame tags that are names of other inertial frames (alias tables are the identity on them)",
@@ -1173,7 +1176,7 @@ def witness_specs():
         opm(centre={"src": "solarsystem", "name": "Moon"}), opm(centre={"src": "jpl", "name": "Venus"}),
         {"type": "oem", "segs": [dict(seg([pt(0, cov), pt(1)]), centre={"src": "jpl", "name": "SolarSystemBarycenter"})], "as_list": False},
         {"type": "oem", "segs": [dict(seg([pt(0), pt(1)]), centre={"src": "solarsystem", "name": "Sun"}), seg([pt(0)])], "as_list": True},
-        # open finding: Lagrange-point centres (XML writer does not split the name); Lagrange point of a body whose own name has two words
+        # (fixed 1063a10, b15e5e0) Lagrange-point centres in XML; Lagrange point of a body whose own name has two words
         opm(centre={"src": "lagrange", "name": "Earth-Moon-L1", "a": "Earth", "b": "Moon", "k": 1}, kep=False),
         {"type": "oem", "segs": [dict(seg([pt(0), pt(1)]), centre={"src": "lagrange", "name": "Sun-Earth-L2", "a": "Sun", "b": "Earth", "k": 2})], "as_list": False},
         opm(centre={"src": "lagrange", "name": "Sun-EarthBarycenter-L2", "a": "Sun", "b": "EarthBarycenter", "k": 2}, kep=False),
@@ -1481,6 +1484,7 @@ def read_tables():
     t["centerNames"] = sorted({centre_frame(c).center.name for c in cs.values() if c["src"] != "lagrange"})
     lag = sorted({centre_frame(c).center.name for c in cs.values() if c["src"] == "lagrange"})
     t["lagrangeNames"] = [n for n in lag if " " not in n]
+    t["lagrangeBlankNames"] = [n for n in lag if " " in n]
     # the USER_DEFINED_ prefix of the KVN keys: writers `f"USER_DEFINED_{k} = {v}\\n"`, readers `k.startswith(P)` ... `k[N:]`
     wp, rp, rs = set(), set(), set()
     for mod, name in ((opm, "opm.py"), (omm, "omm.py")):
@@ -1552,6 +1556,7 @@ def extract(ctx):
          f"def xmlCenterPats : List String := {lstr(t['xmlCenterPats'])}",
          f"def centerNames : List String := {lstr(t['centerNames'])}",
          f"def lagrangeNames : List String := {lstr(t['lagrangeNames'])}",
+         f"def lagrangeBlankNames : List String := {lstr(t['lagrangeBlankNames'])}",
          "end BeyondVerif.Generated"]
     ch2 = core.write_if_changed(os.path.join(core.LEAN, "BeyondVerif", "Generated", "CcsdsExtTables.lean"), "\n".join(E) + "\n")
     return (["Generated/CcsdsTables.lean"] if ch else []) + (["Generated/CcsdsExtTables.lean"] if ch2 else [])
